@@ -272,6 +272,10 @@ def run(chk):
         sl = [rng.uniform(-3, 0.5), rng.uniform(-3, 0.5)]
         nb_ = [rng.randint(1, 6), rng.randint(1, 6)]
         N0 = 10 ** rng.uniform(2, 4)
+        if rng.random() < 0.4:
+            # sparse populations: many bins hold a non-zero number below the 0.1-object threshold of the kick routine (left untouched by it)
+            nb_ = [rng.randint(6, 14), rng.randint(6, 14)]
+            N0 = float(rng.choice([1.0, 5.0, 25.0, 40.0]))
         label = dict(m_breaks=brk, a_slopes=sl, nbins=nb_, N0=N0)
         chk.note_distinct(label)
         try:
